@@ -213,6 +213,12 @@ def run(ctx) -> None:
 
     check_inputs_from_resolver(ctx, "C01.R1")
 
+    # every declared output that was produced is returned with the value it holds: the only values withheld are the
+    # ordering signals, recognised by identity with the module's sentinel
+    from .c16 import check_sentinel_by_identity
+
+    check_sentinel_by_identity(ctx, "C01.R5")
+
     # ---- R6 ---------------------------------------------------------------------
     from .c02 import check_versions_from_snapshot
 
